@@ -379,6 +379,102 @@ func (i *interpreter) assertPC(t *smt.Term) {
 	}
 	i.sol.Assert(t)
 	i.ps.pc = append(i.ps.pc, t)
+	i.learn(t, true)
+}
+
+// learn records what the path condition says syntactically about t and
+// its sub-terms, so that a later branch on the same (hash-consed) term is
+// decided without the solver.
+func (i *interpreter) learn(t *smt.Term, v bool) {
+	if t.W != 0 || t.IsConst() {
+		return
+	}
+	if i.ps.facts == nil {
+		i.ps.facts = map[*smt.Term]bool{}
+	}
+	if _, ok := i.ps.facts[t]; ok {
+		return
+	}
+	i.ps.facts[t] = v
+	switch t.Op {
+	case smt.ONot:
+		i.learn(t.Args[0], !v)
+	case smt.OAnd:
+		if v {
+			i.learn(t.Args[0], true)
+			i.learn(t.Args[1], true)
+		}
+	case smt.OOr:
+		if !v {
+			i.learn(t.Args[0], false)
+			i.learn(t.Args[1], false)
+		}
+	case smt.OUlt, smt.OSlt:
+		if v { // a < b: a != b, not b < a
+			c := i.ctx
+			i.ps.facts[c.Eq(t.Args[0], t.Args[1])] = false
+			if t.Op == smt.OUlt {
+				i.ps.facts[c.Ult(t.Args[1], t.Args[0])] = false
+			} else {
+				i.ps.facts[c.Slt(t.Args[1], t.Args[0])] = false
+			}
+		}
+	case smt.OEq:
+		if v && t.Args[0].W > 0 {
+			c := i.ctx
+			i.ps.facts[c.Ult(t.Args[0], t.Args[1])] = false
+			i.ps.facts[c.Ult(t.Args[1], t.Args[0])] = false
+		}
+	}
+}
+
+// known3 evaluates a boolean term from the learned facts: 1 true, 0 false,
+// -1 unknown.
+func (i *interpreter) known3(t *smt.Term, depth int) int {
+	if t.IsConst() {
+		return int(t.Val)
+	}
+	if v, ok := i.ps.facts[t]; ok {
+		if v {
+			return 1
+		}
+		return 0
+	}
+	if depth <= 0 {
+		return -1
+	}
+	switch t.Op {
+	case smt.ONot:
+		if r := i.known3(t.Args[0], depth-1); r >= 0 {
+			return 1 - r
+		}
+	case smt.OAnd:
+		a, b := i.known3(t.Args[0], depth-1), i.known3(t.Args[1], depth-1)
+		if a == 0 || b == 0 {
+			return 0
+		}
+		if a == 1 && b == 1 {
+			return 1
+		}
+	case smt.OOr:
+		a, b := i.known3(t.Args[0], depth-1), i.known3(t.Args[1], depth-1)
+		if a == 1 || b == 1 {
+			return 1
+		}
+		if a == 0 && b == 0 {
+			return 0
+		}
+	case smt.OIte:
+		if t.W == 0 {
+			switch i.known3(t.Args[0], depth-1) {
+			case 1:
+				return i.known3(t.Args[1], depth-1)
+			case 0:
+				return i.known3(t.Args[2], depth-1)
+			}
+		}
+	}
+	return -1
 }
 
 func (i *interpreter) pushDecision(d Decision) {
@@ -419,6 +515,13 @@ func (i *interpreter) branch(fr *frame, t *smt.Term) bool {
 		return t.Val != 0
 	}
 	c := i.ctx
+	if k := i.known3(t, 6); k >= 0 {
+		// implied syntactically by the path condition: no decision, no fork
+		// (the same facts are learned when a prefix is replayed, so this is
+		// deterministic across re-executions)
+		i.ps.factHits++
+		return k == 1
+	}
 	if d, ok := i.replay('b'); ok {
 		taken := d.V != 0
 		if (i.evalModel(t) != 0) != taken {
